@@ -496,7 +496,8 @@ def register(reg):
                 else:
                     out += '{' + text(n.fields['nodelist']) + '}'
             return out
-        DOCS = [['a=1,b=2'], ['a=1,a=2,a=3'], ['x=', ('p,q',), ',y'], ['=v'], ['k='], ['a==b'], ['a = 1 , b'], [''], [',,a'], ['a=', ('1',), 'z']]
+        DOCS = [['a=1,b=2'], ['a=1,a=2,a=3'], ['x=', ('p,q',), ',y'], ['=v'], ['k='], ['a==b'], ['a = 1 , b'], [''], [',,a'], ['a=', ('1',), 'z'],
+                ['a=,a=1'], ['a=', ('',), ',a=1,a=2'], ['a,a=1,a='], ['k=,k=,k=v']]     # a repeated key whose earlier value is empty
         bad = []
         for pieces in DOCS:
             for pol in ('first', 'last', 'concatenate', 'error'):
@@ -537,7 +538,7 @@ def register(reg):
                     if text(v) != want:
                         bad.append((pieces, pol, 'value of %r reads %r, the policy gives %r' % (k, text(v), want)))
         ctx.prove('parse_keyval_content: keys and values agree with splitting at the commas and then at the first equals sign, for the four '
-                  'repeated-key policies (10 texts, run on the real code)', not bad, 'post', src='offending: %r' % bad[:4])
+                  'repeated-key policies (14 texts, run on the real code)', not bad, 'post', src='offending: %r' % bad[:4])
     units['parse_keyval_content[concrete texts]'] = LemmaUnit('parse_keyval_content[concrete texts]', lemma_keyval,
                                                               functions=[NL + '.parse_keyval_content'])
     for k in units:
